@@ -8,5 +8,7 @@ func main() {
 	vkit.Main(map[string]vkit.Check{
 		"C13": {Run: c13Run, Replay: c13Replay},
 		"C09": {Run: c09Run, Replay: c09Replay},
+		"C10": {Run: c10Run, Replay: c10Replay},
+		"C11": {Run: c11Run, Replay: c11Replay},
 	})
 }
